@@ -5,7 +5,11 @@ GDSII -> raw -> {GDSII, protobuf -> raw, LEF} and LEF -> raw -> {GDSII, protobuf
 harness) repeated inside one process and in several separate processes (fresh hash seeds), outputs compared.
 Model leg for the raw -> LEF exporter (section at the end of this file): LefExporter::export on generated raw libraries with
 abstracts, and LefImporter::import followed by LefExporter::export on generated LEF libraries, against the Coq model
-Raw/RawLefExport.v (harness bin c20x)."""
+Raw/RawLefExport.v (harness bin c20x).
+Model leg for Layers::from_proto (section "technology protobuf -> layer table" below): the "tech" sources of the main run, whose
+printed layer table (slots in order, both purpose maps of every layer, Layers.nums / names) is compared with the Coq model
+Raw/RawLayersProto.v evaluated by Raw/RawLayersProtoCheck.v; the text of the second loop (NoSort / SortByNum / SortByKey) is read
+from layout21raw/src/proto.rs on every run."""
 import json, os, re, struct, subprocess
 from vlib import *
 
@@ -225,8 +229,8 @@ def run_proc(cases):
     return harness("c20", cases)
 
 def run(chk, replay=None):
-    chk.proof_leg(["Order/SortedIter.vo", "Order/HashIterAllowed.vo", "Gen/HashIterGen.vo", "Raw/RawLefExportCheck.vo"], "Properties/C20.v",
-                   ["Order/SortedIter.v", "Order/Determinism_proofs.v", "Raw/RawLefExport_proofs.v"], "Properties.C20")
+    chk.proof_leg(["Order/SortedIter.vo", "Order/HashIterAllowed.vo", "Gen/HashIterGen.vo", "Raw/RawLefExportCheck.vo", "Raw/RawLayersProtoCheck.vo"], "Properties/C20.v",
+                   ["Order/SortedIter.v", "Order/Determinism_proofs.v", "Raw/RawLefExport_proofs.v", "Raw/RawLayersProto_proofs.v"], "Properties.C20")
     chk.assumptions += [
         "cross-process hash seeds are sampled (a fixed number of separate processes per run); the theorem, not the sampling, carries the claim for the modelled iteration sites",
         "conversions whose models take no order argument are deterministic by construction; that their code iterates no hash container is the obligation C20_conversion_sites_covered (textual site list), the repeated runs support it",
@@ -295,6 +299,7 @@ def run(chk, replay=None):
         cases.append({"src": "lef", "reps": 8, "text": "VERSION 5.8 ;\nMACRO m\n  SIZE 4 BY 4 ;\n  PIN a\n    PORT\n      LAYER met1 ;\n        RECT 0 0 1 1 ;\n      LAYER met2 ;\n        RECT 1 1 2 2 ;\n    END\n  END a\nEND m\nEND LIBRARY\n"})
         cases.append({"src": "lef", "reps": 8, "text": "VERSION 5.8 ;\nMACRO m\n  SIZE 4 BY 4 ;\n  PIN a\n    PORT\n      LAYER met1 ;\n        RECT 0 0 1 1 ;\n      LAYER met2 ;\n        RECT 1 1 2 2 ;\n      LAYER met3 ;\n        RECT 2 2 3 3 ;\n    END\n  END a\n  OBS\n    LAYER met1 ;\n      RECT 0 0 1 1 ;\n    LAYER met2 ;\n      RECT 0 0 1 1 ;\n    LAYER met3 ;\n      RECT 0 0 1 1 ;\n  END\nEND m\nEND LIBRARY\n"})
         cases += audit_sources(chk.rng, quick)
+        cases += tech_cases(chk.rng, quick)
     nproc = 4 if quick else 16
     from concurrent.futures import ThreadPoolExecutor
     with ThreadPoolExecutor(max_workers=min(nproc, NCPU)) as ex:
@@ -329,6 +334,8 @@ def run(chk, replay=None):
     chk.cov["input_distribution"] = {"gds_sources": sum(1 for c in cases if c["src"] == "gds"), "tech_sources": sum(1 for c in cases if c["src"] == "tech"), "rawlib_sources": sum(1 for c in cases if c["src"] == "rawlib"), "lef_sources": sum(1 for c in cases if c["src"] == "lef"),
                                      "audit_families": {f: sum(1 for c in cases if c.get("fam") == f) for f in sorted({c.get("fam") for c in cases if c.get("fam")})},
                                      "stage_results": stage_counts, "stages_ending_in_error": errs, "processes": nproc}
+    if layers_leg(chk, cases, runs):
+        bad = [b for b in bad if not (b[1] == "tech_to_layers" and cases[b[0]]["src"] == "tech")]      # reported by layers_leg, with the model's view
     if xcases is None or xcases:
         lefx_leg(chk, xcases)
     if not replay:
@@ -681,3 +688,224 @@ def lefx_leg(chk, replay_cases=None):
         i = mism[0][1]
         chk.broken.append("correspondence C20 raw -> LEF: impl differs from the model Raw/RawLefExport.v (%s; %d cases), e.g. %s impl=%s"
                           % (variant, len(mism), json.dumps(lefx_strip(cases[i]))[:500], json.dumps(res[i])[:500]))
+
+
+# ====================================================================================================================
+# technology protobuf -> layer table: Layers::from_proto against its Coq model (Raw/RawLayersProto.v; theorems
+# C20_layers_from_proto_* of Properties/C20.v).  The "tech" sources run with all the others in the separate processes of the
+# main leg (hashes of the printed table compared); here they are run once more with the table printed in full, and the table is
+# compared with the model's (Raw/RawLayersProtoCheck.v c20l_check: code 0 = equal, 1 = differs) and with the specification side
+# of C20_layers_from_proto_spec (c20l_spec_check).  A table that differs between repetitions or processes is a violation of the
+# property itself (code 2, decided here).
+U64 = 1 << 64
+LAYERS_PROBLEMS = []
+def layers_variant():
+    """Which text the second loop of Layers::from_proto has, read from layout21raw/src/proto.rs on every run:
+    SortByKey = `layers_by_number.iter()` collected and `sort_by_key(|(index, _)| **index)` (HEAD, commit ccd13a3);
+    SortByNum = `.values()` collected and `sort_by_key(|layer| layer.layernum)` (commit ff55d4d);
+    NoSort    = `for layer in layers_by_number.values()` (as found).
+    The statements of the first loop that the model transcribes are looked for as well; anything else -> the tie to the source is
+    broken (reported) and SortByKey is used."""
+    del LAYERS_PROBLEMS[:]
+    src = open(os.path.join(REPO, "layout21raw/src/proto.rs"), encoding="utf8").read()
+    i = src.find("pub fn from_proto(library_pb: &proto::Technology)")
+    j = src.find("fn proto_to_internal_layer_purpose(", i)
+    if i < 0 or j < i:
+        LAYERS_PROBLEMS.append("Layers::from_proto / proto_to_internal_layer_purpose not found in layout21raw/src/proto.rs")
+        return "SortByKey"
+    body = re.sub(r"//[^\n]*", "", src[i:j])
+    flat = re.sub(r"\s+", "", body)
+    for what, marker in (("map keyed by the 64-bit index", ".entry(layer_pb.index)"),
+                         ("new layer numbered `index as i16`", ".or_insert(Layer::from_num(layer_pb.indexasi16))"),
+                         ("`sub_index as i16`", "letsub_index=layer_pb.sub_indexasi16;"),
+                         ("no purpose message -> Other(sub_index)", "None=>LayerPurpose::Other(sub_index),"),
+                         ("add_purpose(sub_index, purpose)?", "layer.add_purpose(sub_index,layer_purpose)?;"),
+                         ("fresh table", "letmutlayers=Layers::default();"),
+                         ("Layers::add of a clone", "layers.add(layer.clone());")):
+        if marker not in flat:
+            LAYERS_PROBLEMS.append("Layers::from_proto no longer has the statement the model transcribes (%s): %s" % (what, marker))
+    k = src.find("}", j)
+    helper = re.sub(r"\s+", "", src[j:src.find("\n}\n", j)])
+    if "proto::LayerPurposeType::Label=>LayerPurpose::Label,_=>LayerPurpose::Other(sub_index)," not in helper:
+        LAYERS_PROBLEMS.append("proto_to_internal_layer_purpose is not `Label => Label, _ => Other(sub_index)` any more")
+    by_key = "sort_by_key(|(index,_)|**index)" in flat and "layers_by_number.iter().collect()" in flat and "for(_,layer)insorted{" in flat
+    by_num = "sort_by_key(|layer|layer.layernum)" in flat and "layers_by_number.values().collect()" in flat and "forlayerinsorted{" in flat
+    no_sort = "forlayerinlayers_by_number.values(){" in flat and "sort" not in flat
+    if [by_key, by_num, no_sort].count(True) != 1:
+        LAYERS_PROBLEMS.append("cannot tell which second loop Layers::from_proto has (sorted by the map key / sorted by layer number / unsorted values())")
+        return "SortByKey"
+    return "SortByKey" if by_key else "SortByNum" if by_num else "NoSort"
+
+TECH_TYPES = [None, None, 0, 1, 1, 1, 2, 3, 4, 5]
+def tech_cases(rng, quick):
+    """Technologies for Layers::from_proto.  [index, sub_index, purpose type | null]; indices and sub-indices are u64 in the schema.
+    dir_*: fixed inputs, one per behaviour read from the code; rand_*: generated."""
+    out = []
+    reps = 4 if quick else 8
+    def add(fam, layers, reps_=None):
+        out.append({"src": "tech", "fam": fam, "layers": layers, "reps": reps_ or reps})
+    add("tech_dir_empty", [], 2)
+    add("tech_dir_single", [[7, 0, 2]], 2)
+    # indices that collide after `as i16` (both become layer number 5), in both input orders; more than two; very large ones
+    add("tech_dir_collide", [[5, 0, 2], [65541, 1, 2]], 8)
+    add("tech_dir_collide", [[65541, 1, 2], [5, 0, 2]], 8)
+    add("tech_dir_collide", [[131077, 2, 1], [5, 0, 2], [(1 << 63) + 5, 4, None], [65541, 1, 2], [(1 << 32) + 5, 3, 3], [6, 0, 2]], 8)
+    # the witness of the non-vacuity example of Properties/C20.v
+    add("tech_dir_example", [[65541, 1, 1], [7, 0, 2], [5, 2, None], [7, 70000, 3], [5, 2, 1], [65541, 9, 4], [7, 1, 1]], 8)
+    # layer numbers that come out negative: index >= 32768 modulo 65536
+    add("tech_dir_negative", [[40000, 0, 2], [32768, 0, 2], [65535, 1, 1], [U64 - 1, 2, None], [32767, 0, 2], [0, 0, 2]], 8)
+    # sub_index beyond i16: 70000 -> 4464, 65536 -> 0 (the same purpose number as sub_index 0), 32768 -> -32768, 2^64-1 -> -1
+    add("tech_dir_sub_wrap", [[3, 70000, 2], [3, 65536, 3], [3, 0, 1], [3, 32768, None], [3, U64 - 1, 1], [3, 65535, 4]], 4)
+    # the same (index, sub_index) several times: add_purpose overwrites `purps`, `nums` keeps one entry per purpose
+    add("tech_dir_duplicate", [[5, 3, 1], [5, 3, 2], [5, 3, 1]], 4)
+    add("tech_dir_duplicate", [[5, 3, 2], [5, 3, 2], [9, 3, 2], [5, 3, 1], [5, 3, None]], 4)
+    # Label under several numbers of one layer: `nums[Label]` is the last one
+    add("tech_dir_label", [[7, 1, 1], [7, 2, 1], [7, 0, 1], [8, 5, 1]], 4)
+    # every purpose type, an absent purpose message, and type numbers outside the enumeration (prost: the default, UNKNOWN)
+    add("tech_dir_types", [[4, k, t] for k, t in enumerate([None, 0, 1, 2, 3, 4, 5, 6, 7, -1, (1 << 31) - 1, -(1 << 31)])], 4)
+    add("tech_dir_many_purposes", [[11, s, TECH_TYPES[s % len(TECH_TYPES)]] for s in range(40)] + [[12, 0, 2]], 4)
+    def idx(pool):
+        return rng.choice(pool) + rng.choice([0, 0, 0, 65536, 65536, 131072, 1 << 32, 1 << 63, 3 << 16, (U64 - 65536)])
+    def sub():
+        r = rng.random()
+        return rng.randrange(0, 6) if r < 0.6 else rng.randrange(0, 40) if r < 0.8 else rng.choice([65536, 65537, 70000, 32768, 32767, 65535, U64 - 1, U64 - 2, 1 << 32])
+    for _ in range(90 if quick else 900):
+        pool = rng.sample(range(0, 12), rng.randrange(1, 5)) + rng.sample([32768, 40000, 65535, 32767], rng.randrange(0, 2))
+        ls = [[idx(pool) % U64, sub(), rng.choice(TECH_TYPES)] for _ in range(rng.randrange(1, 14))]
+        add("tech_rand_small", ls)
+    for _ in range(40 if quick else 400):
+        ls = []
+        for _ in range(rng.randrange(2, 10)):
+            i = rng.randrange(0, U64)
+            ls += [[i, rng.randrange(0, U64) if rng.random() < 0.5 else rng.randrange(0, 8), rng.choice(TECH_TYPES + [6, -1])] for _ in range(rng.randrange(1, 4))]
+        rng.shuffle(ls)
+        add("tech_rand_wide", ls)
+    for _ in range(10 if quick else 100):
+        base = rng.sample(range(0, 3000), rng.randrange(20, 70))
+        ls = [[n + 65536 * rng.choice([0, 0, 0, 1, 2]), s, rng.choice(TECH_TYPES)] for n in base for s in rng.sample(range(0, 10), rng.randrange(1, 3))]
+        rng.shuffle(ls)
+        add("tech_rand_many", ls)
+    return out
+
+def l_purpose(s):
+    m = re.fullmatch(r"Other\((-?\d+)\)", s)
+    if m:
+        return Raw("(Other %s)" % cz(int(m.group(1))))
+    if s in ("Drawing", "Pin", "Label", "Obstruction", "Outline"):
+        return Raw(s)
+    raise ValueError("purpose %r" % s)
+def l_tech(layers):
+    return clist([capp("mktl", cz(l[0]), cz(l[1]), copt(None if l[2] is None else cz(l[2]))) for l in layers])
+def l_impl(table):
+    slots = [capp("mkislot", cz(num), cbool(name is not None), clist([ctup(cz(n), l_purpose(p)) for n, p in purps]), clist([ctup(l_purpose(p), cz(n)) for p, n in nums]))
+             for num, name, purps, nums in table["slots"]]
+    return capp("LIOk", clist(slots), clist([ctup(cz(n), cz(k)) for n, k in table["nums"]]), cz(table["names"]))
+
+LAYERS_HDR = ("From Coq Require Import ZArith List String Bool.\nImport ListNotations.\n"
+              "From L21 Require Import Base.Outcome Raw.RawData Raw.RawLayersProto Raw.RawLayersProtoCheck.\nOpen Scope Z_scope.\n")
+
+def layers_leg(chk, cases, runs):
+    """Returns True when the leg ran (it then owns the reporting of the stage tech_to_layers)."""
+    tidx = [i for i, c in enumerate(cases) if c.get("src") == "tech"]
+    if not tidx or not getattr(chk, "model_ok", False):
+        return False
+    variant = layers_variant()
+    for pb in LAYERS_PROBLEMS:
+        chk.broken.append("tie to the source (Layers::from_proto model): " + pb)
+    chk.assumptions += [
+        "Layers::from_proto: slot-map keys of a fresh table are handed out in insertion order; prost's generated `type()` getter maps unknown enumeration numbers to UNKNOWN; "
+        "`Vec::sort_by_key` is a stable sort; the two private maps of a Layer are read from its Debug print (cross-checked with the public lookup)",
+    ]
+    tcases = [cases[i] for i in tidx]
+    res = harness("c20", [dict(c, want_out=True) for c in tcases])
+    codes, tables, seen = [None] * len(tcases), [None] * len(tcases), [None] * len(tcases)
+    items, pos = [], []
+    for k, (i, c, r) in enumerate(zip(tidx, tcases, res)):
+        allr = [run[i] for run in runs] + [r]
+        # the property itself: one table, in every repetition and every process
+        views = []
+        for x in allr:
+            if "stages" not in x:
+                views.append("panic" if "panic" in x else "crash")
+            elif x["unstable_in_process"] or len(x["stages"]) != 1:
+                views.append("unstable-in-process")
+            else:
+                views.append(x["stages"][0][1])
+        seen[k] = views
+        if "unstable-in-process" in views or len(set(views)) != 1:
+            codes[k] = 2
+            if "stages" in r and not r["stages"][0][2].startswith("ERR"):
+                tables[k] = r["stages"][0][2]
+            continue
+        if "stages" not in r:
+            impl = Raw("LIPanic") if "panic" in r else None
+        elif r["stages"][0][2].startswith("ERR"):
+            impl = Raw("LIErr")
+        else:
+            tables[k] = r["stages"][0][2]
+            try:
+                impl = l_impl(json.loads(tables[k]))
+            except (ValueError, KeyError, TypeError):
+                impl = None
+        if impl is None:
+            codes[k] = 1                  # crash, or a table the model's types cannot express (a Named purpose)
+            continue
+        spec = "c20l_spec_check t i" if variant == "SortByKey" else "0"
+        items.append(Raw("(let t := %s in let i := %s in (c20l_check %s t i, %s))" % (l_tech(c["layers"]), impl, variant, spec)))
+        pos.append(k)
+    vals = coq_eval_lists(LAYERS_HDR, items, chk.rundir, "c20l", shard=40)
+    spec_bad = []
+    for k, sv in zip(pos, vals):
+        m = re.match(r"^\(\s*\(?(-?\d+)\)?(?:%Z)?\s*,\s*\(?(-?\d+)\)?(?:%Z)?\s*\)$", sv.strip())
+        if not m:
+            raise RuntimeError("c20l: unexpected Coq value %r" % sv)
+        codes[k] = 0 if (int(m.group(1)), int(m.group(2))) == (0, 0) else 1
+        if int(m.group(2)) != 0:
+            spec_bad.append(k)
+    fams, outcome = {}, {}
+    for c, r in zip(tcases, res):
+        fams[c.get("fam", "tech_main")] = fams.get(c.get("fam", "tech_main"), 0) + 1
+        o = "panic" if "panic" in r else "crash" if "stages" not in r else "err" if r["stages"][0][2].startswith("ERR") else "table"
+        outcome[o] = outcome.get(o, 0) + 1
+    def shape(c):
+        ix = {l[0] for l in c["layers"]}
+        return {"indices": len(ix), "numbers": len({((x + 32768) % 65536) - 32768 for x in ix})}
+    nontrivial = [c for c in tcases if shape(c)["indices"] >= 2]
+    nruns = sum(c.get("reps", 3) for c in tcases)
+    chk.cov["evaluations"] += nruns
+    chk.cov["distinct_nontrivial"] += len({json.dumps(c["layers"]) for c in nontrivial})
+    chk.cov["traces_validated_against_impl"] += sum(c.get("reps", 3) for c, k in zip(tcases, codes) if k == 0)
+    chk.cov["rule"] += ("; Layers::from_proto model leg: technologies of 0-130 entries over 1-70 major-layer indices (small pools with offsets of 2^16, 2^17, 2^32, 2^63 so that truncated "
+                        "layer numbers collide and come out negative; random 64-bit indices and sub-indices; every purpose type, absent purposes, type numbers outside the enumeration; repeated "
+                        "(index, sub_index) pairs), the printed table (slot order, both purpose maps of each layer, Layers.nums, names) compared with the Coq model and with the specification "
+                        "(ascending distinct indices, per index the purposes in input order), and between %d repetitions and the separate processes; non-trivial = two or more distinct indices"
+                        % (tcases[-1].get("reps", 3)))
+    chk.cov["input_distribution"]["layers_from_proto_model_leg"] = {
+        "iteration_site": "layout21raw/src/proto.rs Layers::from_proto `layers_by_number` (HashMap<u64, Layer>): modelled with an order oracle in Raw/RawLayersProto.v; second loop read from the source",
+        "model_variant": variant, "cases": len(tcases), "families": fams, "impl_outcomes": outcome,
+        "with_colliding_layer_numbers": sum(1 for c in tcases if shape(c)["numbers"] < shape(c)["indices"]),
+        "with_repeated_index_sub_pair": sum(1 for c in tcases if len({(l[0], l[1]) for l in c["layers"]}) < len(c["layers"])),
+        "max_distinct_indices": max(shape(c)["indices"] for c in tcases),
+        "codes": {str(k): sum(1 for x in codes if x == k) for k in (0, 1, 2)}, "differs_from_specification": len(spec_bad)}
+    order = sorted(range(len(tcases)), key=lambda k: len(json.dumps(tcases[k]["layers"])))
+    chk.add_samples([{"tech": tcases[k]["layers"], "table": tables[k], "code": codes[k]} for k in order if 200 < len(json.dumps(tcases[k]["layers"])) < 600][:2], k=2)
+    viol = [k for k in order if codes[k] == 2]
+    mism = [k for k in order if codes[k] == 1]
+    chk.cov["correspondence_mismatches"] += len(mism)
+    if viol:
+        k = viol[0]
+        # the tables themselves: the smallest technology converted a dozen times, once per harness case
+        again = harness("c20", [dict(tcases[k], reps=1, want_out=True)] * 12)
+        distinct = sorted({x["stages"][0][2] if "stages" in x else json.dumps(x) for x in again})
+        seen[k] = [t[:300] for t in distinct[:3]] if len(distinct) > 1 else seen[k]
+        predicted = {"NoSort": " -- what the model of this text of the loop predicts (C20_layers_from_proto_orig_refuted)",
+                     "SortByNum": " -- possible for this text of the loop when truncated numbers collide (C20_layers_from_proto_sort_by_num_refuted)"}.get(variant, "")
+        chk.violation("Layers::from_proto: one technology gives different layer tables between repetitions / processes (%d of %d technologies; second loop of the source: %s%s); smallest: layers=%s tables seen: %s"
+                      % (len(viol), len(tcases), variant, predicted, json.dumps(tcases[k]["layers"])[:300], sorted(set(map(str, seen[k])))[:4]),
+                      {"cases": [tcases[j] for j in viol[:20]], "stage": "tech_to_layers", "model_variant": variant}, suffix="-layers_from_proto")
+    elif mism:
+        k = mism[0]
+        chk.broken.append("correspondence C20 Layers::from_proto: impl differs from the model Raw/RawLayersProto.v (%s; %d cases%s), e.g. layers=%s impl=%s"
+                          % (variant, len(mism), "; %d differ from the specification of C20_layers_from_proto_spec" % len(spec_bad) if spec_bad else "",
+                             json.dumps(tcases[k]["layers"])[:400], json.dumps(res[k])[:600]))
+    return True
